@@ -9,28 +9,37 @@ MANIFEST = {
                      "frames with next/invalidated - and the snapshot specification, both run by one generic program evaluator; the "
                      "simulation relation contains the invariant of the two-sided bookkeeping) + differential correspondence model vs "
                      "real Callback.hpp/.cpp under ASan/UBSan",
-        "text": "Theorems, for all programs (top-level actions and slot bodies that connect, disconnect, emit recursively and destroy "
-                "listeners/emitters, their own included, arbitrarily nested), all numbers of objects and every fuel of the evaluator, "
-                "about the Lean model of Callback.cpp: emit_refines (invocation log = log of the snapshot specification), "
-                "no_use_after_free, never_after_disconnect_or_destroy (state level) and never_invoked_unless_listed (whole runs, "
-                "through a run-time monitor shown never to fire), bookkeeping_consistent, listener_side_exact (listener-side lists = the live connections in order "
-                "of birth), terminates (finite script tables need finite fuel) and fuel_irrelevant, node_is_ghost; all proved in "
-                "full (no partial statement). The model is tied to the current Callback.hpp/.cpp on every run by executing identical op lines on both "
-                "(every small program up to renaming + random programs, heap objects under ASan/UBSan, white-box bookkeeping of "
-                "both sides after every top-level action); an independent Python implementation of the snapshot specification "
-                "predicts every invocation log and the bookkeeping of the real code.",
+        "text": "Theorems, for all programs (top-level actions and slot bodies that connect, disconnect, emit recursively - on the same or "
+                "on other emitters, with other arguments - and destroy or re-create listeners/emitters, their own included, arbitrarily "
+                "nested), all numbers of objects and every fuel of the evaluator, about the Lean model of Callback.cpp: emit_refines (log "
+                "= log of the snapshot specification: slot invocations with the arguments received and the start/return of every emit "
+                "call), args_forwarded (every slot receives exactly the argument given to the emit call that invokes it; every emit call "
+                "returns once), no_use_after_free, no_dangling (an audit of pointer validity - activation chain, receivers, emitter keys - "
+                "and of the multiset equality of the two sides, evaluated before every primitive step at any nesting depth, never fails; "
+                "every activation is destroyed as the innermost one, exactly once), never_after_disconnect_or_destroy (state level) and "
+                "never_invoked_unless_listed (whole runs), bookkeeping_consistent and two_sides_inverse (after every top-level call), "
+                "listener_side_exact (listener-side lists = the live connections in order of birth), terminates and fuel_irrelevant, "
+                "node_is_ghost; all proved in full (no partial statement). The model is tied to the current Callback.hpp/.cpp on every "
+                "run by executing identical op lines on both (every small program up to renaming + structured cross-emitter programs + "
+                "random programs over all nine arity overloads, heap objects under ASan/UBSan and a second pass with objects "
+                "re-created at exactly the address of their predecessor, white-box bookkeeping of both sides after every top-level "
+                "action); an independent Python implementation of the snapshot specification predicts every log and the bookkeeping "
+                "of the real code and counts the re-entrant situations reached (branch_hits).",
         "note": "Trusted: Lean kernel + the three standard axioms; hand translation of Callback.cpp into the model (validated by the "
-                "correspondence run, not proved): pointers are ids that are never reused, Map = key list + lookup function, the "
-                "emission iterator is an index into the slot list (or the `end` captured for a list empty at construction), an "
-                "activation constructed without signal data is inert and "
-                "pushes no frame, the identity (address) of a List node is a number from an allocation counter (theorem "
-                "node_is_ghost: it influences nothing); one model of `emit`/`connect`/`disconnect` stands for the nine arity "
-                "overloads, which differ in the argument list only (the harness uses the arity-0 overloads for signal 0, the "
-                "arity-1 overloads for signal 1 and the arity-8 overloads for signal 2). Single-threaded use. Slot bodies are finite scripts indexed by (listener, slot, "
-                "invocation number). Accesses to a List item after "
-                "`List::remove` are invisible to ASan (nstd pools list items) - the check would only see their effect on the "
-                "observables. The model mirrors the code WITH the repair of defect D18 (fixes/callback/0001-*.patch); on the "
-                "unpatched tree the check reports the D18 inputs.",
+                "correspondence run, not proved): pointers are ids that are never reused (the harness's reuse mode re-creates objects at "
+                "the address of their predecessor to test exactly this), Map = key list + lookup function, the emission iterator is an "
+                "index into the slot list (or the `end` captured for a list empty at construction), an activation constructed without "
+                "signal data is inert and pushes no frame, the identity (address) of a List node is a number from an allocation counter "
+                "(theorem node_is_ghost: it influences nothing); one model of `emit`/`connect`/`disconnect` stands for the nine arity "
+                "overloads (all nine are instantiated and run by the harness: signal g has g parameters), one number stands for the "
+                "argument tuple (the harness passes v..v+g-1 and checks the tuple in the slot), arguments are by value: parameter "
+                "types that are references are NOT modelled (line `refargs`, tie only), nor is the unchecked cast through which emit "
+                "calls a slot of another class (exercised with a padding base class, receiver address != object address). "
+                "The audit of no_dangling is decided classically (the audited model is not executable; it is a proof device). "
+                "Emitter/Listener cannot be copied (compiler probe on every run). Single-threaded use. Slot bodies are finite scripts "
+                "indexed by (listener, slot, invocation number). Accesses to a List item after `List::remove` are invisible to ASan "
+                "(nstd pools list items) - the check would only see their effect on the observables. The model mirrors the code WITH "
+                "the repair of defect D18 (fixes/callback/0001-*.patch); on the unpatched tree the check reports the D18 inputs.",
         "design_ref": "DESIGN.md 3/C12",
     }
 }
@@ -727,10 +736,10 @@ def histories_for(ctx):
             ex += e
             if U == (1, 1, 1, 1):
                 # signal g has g parameters: once more through each of the other arity overloads of emit/connect/disconnect
-                small = [h for h in e if len(h) <= size - 1] if quick else e
+                small = [h for h in e if len(h) <= size - 1]
                 for k in range(1, NG):
                     ex += [swap_signals(h, {0: k}) for h in small]
-                desc.append(f"those of at most {size - 2 if quick else size - 1} op lines (+ end) over each of the signals 1..8 (arity 1..8): 8 x {len(small)}")
+                desc.append(f"those of at most {size - 2} op lines (+ end) over each of the signals 1..8 (arity 1..8): 8 x {len(small)}")
             if U[:4] == (1, 1, 2, 2):
                 ex += [swap_signals(h, {0: 1}) for h in e] + [swap_signals(h, {0: 8}) for h in e]
                 desc.append(f"the same over signal 1 and over signal 8: 2 x {len(e)}")
@@ -813,7 +822,7 @@ def copy_rejected(ctx):
 def check(ctx):
     ctx.assumptions += [
         "single-threaded use of Callback (the class has no synchronisation)",
-        "a new object is a new id in the model even when the allocator hands out the address of a destroyed object (the harness does re-create objects, so address reuse is exercised)",
+        "a new object is a new id in the model even when it gets the address of a destroyed object (exercised: after a `reuse` line the harness constructs objects in place, a re-created object has exactly the address of its predecessor)", "emit arguments are passed by value (reference parameter types are only exercised by the `refargs` line)",
         "slot bodies are deterministic scripts of connect/disconnect/emit/delete actions; allocation never fails",
     ]
     proof_ok = C.proof_stage(ctx, PROPS, [DRIVER], leanchecker=(ctx.tier == "thorough"))
